@@ -2,6 +2,7 @@
 C19 helper lemmas: list sums, the local step relation, lock effects, invariant preservation.
 -/
 import CobaVerif.Model.C19
+import CobaVerif.Generated.C19Consts
 
 namespace Coba.C19
 set_option linter.unusedSimpArgs false
@@ -1881,4 +1882,521 @@ theorem semaphore_sequence_balanced' (p : Nat) (hp : 1 ≤ p) : ∀ rs, semRun p
   induction rs with
   | nil => rfl
   | cons r rs ih => simp [semRun, semStep_balanced p r hp, ih]
+
+/-! ### Phase 4: download semaphore as an interleaving system -/
+
+theorem ssum_set (f : SCaller → Nat) : ∀ (l : List SCaller) (i : Nat) (c c' : SCaller),
+    l[i]? = some c → ssum f (l.set i c') + f c = ssum f l + f c' := by
+  intro l
+  induction l with
+  | nil => intro i c c' h; simp at h
+  | cons a t ih =>
+    intro i c c' h
+    cases i with
+    | zero => simp at h; subst h; simp [ssum]; omega
+    | succ n =>
+      simp at h
+      have := ih n c c' h
+      simp [ssum]; omega
+
+theorem ssum_ge (f : SCaller → Nat) : ∀ (l : List SCaller) (i : Nat) (c : SCaller),
+    l[i]? = some c → f c ≤ ssum f l := by
+  intro l
+  induction l with
+  | nil => intro i c h; simp at h
+  | cons a t ih =>
+    intro i c h
+    cases i with
+    | zero => simp at h; subst h; simp [ssum]
+    | succ n => simp at h; have := ih n c h; simp [ssum]; omega
+
+theorem ssum_zero (f : SCaller → Nat) : ∀ (l : List SCaller), (∀ c ∈ l, f c = 0) → ssum f l = 0 := by
+  intro l
+  induction l with
+  | nil => intro _; rfl
+  | cons a t ih => intro h; simp [ssum, h a (by simp), ih (fun c hc => h c (by simp [hc]))]
+
+theorem ssum_le (f g : SCaller → Nat) (hfg : ∀ c, f c ≤ g c) : ∀ (l : List SCaller), ssum f l ≤ ssum g l := by
+  intro l
+  induction l with
+  | nil => simp [ssum]
+  | cons a t ih => have := hfg a; simp [ssum]; omega
+
+theorem ssum_init_zero (f : SCaller → Nat) (hf : ∀ p, f { pc := .idle, todo := p } = 0) (progs : List (List SRead)) :
+    ssum f (progs.map (fun p => { pc := .idle, todo := p })) = 0 := by
+  apply ssum_zero
+  intro c hc
+  simp at hc
+  obtain ⟨p, _, rfl⟩ := hc
+  exact hf p
+
+/-- local effect of one step on the permit accounting -/
+theorem semStepC_account {free : Nat} {c c' : SCaller} {ev : SEv} {f : Nat}
+    (h : semStepC free c = some (ev, f, c')) : f + c'.holds = free + c.holds := by
+  unfold semStepC at h
+  rcases c with ⟨pc, todo⟩
+  cases pc with
+  | idle =>
+    cases todo with
+    | nil => simp at h
+    | cons r t =>
+      simp at h
+      split at h <;> simp at h <;> obtain ⟨_, rfl, rfl⟩ := h <;> simp [SCaller.holds]
+  | want r =>
+    simp at h
+    split at h <;> simp at h <;> obtain ⟨_, rfl, rfl⟩ := h <;> simp [SCaller.holds]
+    omega
+  | recheck r =>
+    simp at h
+    split at h <;> simp at h <;> obtain ⟨_, rfl, rfl⟩ := h <;> simp [SCaller.holds]
+  | inside r => simp at h; obtain ⟨_, rfl, rfl⟩ := h; simp [SCaller.holds]
+  | fin b => cases b <;> simp at h <;> obtain ⟨_, rfl, rfl⟩ := h <;> simp [SCaller.holds]
+
+theorem sem_account_reachable {permits : Nat} {progs : List (List SRead)} {s : SSt}
+    (h : SReachable permits progs s) : s.free + s.holders = permits := by
+  induction h with
+  | init => simp [sinit, SSt.holders]; exact ssum_init_zero _ (fun p => rfl) progs
+  | step hr hs ih =>
+    rename_i s s' i ev
+    unfold sstep at hs
+    cases hc : s.cs[i]? with
+    | none => simp [hc] at hs
+    | some c =>
+      simp [hc] at hs
+      cases hq : semStepC s.free c with
+      | none => simp [hq] at hs
+      | some r =>
+        obtain ⟨ev', f, c'⟩ := r
+        simp [hq] at hs
+        obtain ⟨_, rfl⟩ := hs
+        have h1 := semStepC_account hq
+        have h2 := ssum_set SCaller.holds s.cs i c c' hc
+        simp [SSt.holders] at ih ⊢
+        omega
+
+theorem downloading_le_holds (c : SCaller) : c.downloading ≤ c.holds := by
+  rcases c with ⟨pc, todo⟩
+  cases pc <;> simp [SCaller.downloading, SCaller.holds]
+
+theorem semaphore_bound' {permits : Nat} {progs : List (List SRead)} {s : SSt}
+    (h : SReachable permits progs s) :
+    s.free + s.holders = permits ∧ s.downloads ≤ s.holders ∧ s.holders ≤ permits := by
+  have := sem_account_reachable h
+  refine ⟨this, ssum_le _ _ downloading_le_holds _, by omega⟩
+
+theorem terminal_holds_zero (c : SCaller) (h : c.terminal = true) : c.holds = 0 := by
+  rcases c with ⟨pc, todo⟩
+  cases pc <;> simp [SCaller.terminal, SCaller.holds] at h ⊢
+
+theorem semaphore_all_released' {permits : Nat} {progs : List (List SRead)} {s : SSt}
+    (h : SReachable permits progs s) (ht : s.allTerminal = true) : s.free = permits := by
+  have := sem_account_reachable h
+  have hz : s.holders = 0 := by
+    apply ssum_zero
+    intro c hc
+    simp [SSt.allTerminal] at ht
+    exact terminal_holds_zero c (ht c hc)
+  omega
+
+/-- a caller that is not waiting in `acquire()` and not finished has a non-wait step -/
+theorem sem_nonwait_step (free : Nat) (c : SCaller) (hnt : c.terminal = false) (hw : ∀ r, c.pc ≠ .want r) :
+    ∃ ev f c', semStepC free c = some (ev, f, c') ∧ ev ≠ .wait := by
+  rcases c with ⟨pc, todo⟩
+  cases pc with
+  | idle =>
+    cases todo with
+    | nil => simp [SCaller.terminal] at hnt
+    | cons r t =>
+      by_cases hr : r.c1 <;> simp [semStepC, hr]
+  | want r => exact absurd rfl (hw r)
+  | recheck r => by_cases hr : r.c2 <;> simp [semStepC, hr]
+  | inside r => by_cases hr : r.exc <;> simp [semStepC, hr]
+  | fin b => cases b <;> simp [semStepC]
+
+theorem semaphore_deadlock_free' {permits : Nat} {progs : List (List SRead)} {s : SSt} (hp : 1 ≤ permits)
+    (h : SReachable permits progs s) (hnt : s.allTerminal = false) :
+    ∃ i ev s', sstep s i = some (ev, s') ∧ ev ≠ .wait := by
+  have hacc := sem_account_reachable h
+  by_cases hex : ∃ (i : Nat) (c : SCaller), s.cs[i]? = some c ∧ c.terminal = false ∧ ∀ r, c.pc ≠ .want r
+  · obtain ⟨i, c, hc, hct, hw⟩ := hex
+    obtain ⟨ev, f, c', hs, hne⟩ := sem_nonwait_step s.free c hct hw
+    exact ⟨i, ev, { free := f, cs := s.cs.set i c' }, by simp [sstep, hc, hs], hne⟩
+  · -- every unfinished caller waits in acquire(): nobody holds a permit, so all permits are free
+    have hall : ∀ c ∈ s.cs, c.holds = 0 := by
+      intro c hc
+      obtain ⟨i, hi, hci⟩ := List.mem_iff_getElem.mp hc
+      have hci' : s.cs[i]? = some c := by simp [List.getElem?_eq_getElem hi, hci]
+      by_cases hct : c.terminal = true
+      · exact terminal_holds_zero c hct
+      · have : ∃ r, c.pc = .want r := by
+          apply Classical.byContradiction; intro hcon
+          exact hex ⟨i, c, hci', by simpa using hct, fun r hr => hcon ⟨r, hr⟩⟩
+        obtain ⟨r, hr⟩ := this
+        simp [SCaller.holds, hr]
+    have hz : s.holders = 0 := ssum_zero _ _ hall
+    simp [SSt.allTerminal] at hnt
+    obtain ⟨c, hc, hct⟩ := hnt
+    obtain ⟨i, hi, hci⟩ := List.mem_iff_getElem.mp hc
+    have hci' : s.cs[i]? = some c := by simp [List.getElem?_eq_getElem hi, hci]
+    have : ∃ r, c.pc = .want r := by
+      apply Classical.byContradiction; intro hcon
+      exact hex ⟨i, c, hci', hct, fun r hr => hcon ⟨r, hr⟩⟩
+    obtain ⟨r, hr⟩ := this
+    have hfree : 0 < s.free := by omega
+    refine ⟨i, .acquire, { free := s.free - 1, cs := s.cs.set i { c with pc := .recheck r } }, ?_, by simp⟩
+    simp [sstep, hci', semStepC, hr, hfree]
+
+theorem semStepC_measure {free : Nat} {c c' : SCaller} {ev : SEv} {f : Nat}
+    (h : semStepC free c = some (ev, f, c')) :
+    (ev ≠ .wait → c'.measure < c.measure) ∧ (ev = .wait → f = free ∧ c' = c) := by
+  unfold semStepC at h
+  rcases c with ⟨pc, todo⟩
+  cases pc with
+  | idle =>
+    cases todo with
+    | nil => simp at h
+    | cons r t =>
+      simp at h
+      split at h <;> simp at h <;> obtain ⟨rfl, rfl, rfl⟩ := h <;> simp [SCaller.measure, SPc.rank] <;> omega
+  | want r =>
+    simp at h
+    split at h <;> simp at h <;> obtain ⟨rfl, rfl, rfl⟩ := h <;> simp [SCaller.measure, SPc.rank]
+  | recheck r =>
+    simp at h
+    split at h <;> simp at h <;> obtain ⟨rfl, rfl, rfl⟩ := h <;> simp [SCaller.measure, SPc.rank]
+  | inside r =>
+    simp at h; obtain ⟨rfl, rfl, rfl⟩ := h
+    by_cases hr : r.exc <;> simp [SCaller.measure, SPc.rank, hr]
+  | fin b => cases b <;> simp at h <;> obtain ⟨rfl, rfl, rfl⟩ := h <;> simp [SCaller.measure, SPc.rank]
+
+theorem semaphore_progress' {s s' : SSt} {i : Nat} {ev : SEv} (hs : sstep s i = some (ev, s')) :
+    (ev ≠ .wait → s'.measure < s.measure) ∧ (ev = .wait → s' = s) := by
+  unfold sstep at hs
+  cases hc : s.cs[i]? with
+  | none => simp [hc] at hs
+  | some c =>
+    simp [hc] at hs
+    cases hq : semStepC s.free c with
+    | none => simp [hq] at hs
+    | some r =>
+      obtain ⟨ev', f, c'⟩ := r
+      simp [hq] at hs
+      obtain ⟨rfl, rfl⟩ := hs
+      have hm := semStepC_measure hq
+      have h2 := ssum_set SCaller.measure s.cs i c c' hc
+      constructor
+      · intro hne
+        have := hm.1 hne
+        simp [SSt.measure]; omega
+      · intro he
+        obtain ⟨rfl, rfl⟩ := hm.2 he
+        have : s.cs.set i c' = s.cs := by
+          apply List.ext_getElem? ; intro n
+          by_cases hn : i = n
+          · subst hn; rw [List.getElem?_set_self' ]; simp [hc]
+          · rw [List.getElem?_set_ne hn]
+        simp [this]
+
+
+
+/-! ### Phase 4: file-level system -/
+
+theorem lstep_popW {idx arr cache c ev a' ch' c'} (h : LStep idx arr cache c ev a' ch' c') :
+    (∀ k g, c'.pc = .gsPopW k g → ev = .ccreate k) ∧
+    (∀ k g, c.pc = .gsPopW k g → (∃ v, ev = .cpop k v) ∨ ev = .cpopFail k) ∧
+    (∀ k, ev = .ccreate k → ∃ g, c'.pc = .gsPopW k g) := by
+  cases h
+  all_goals (simp [toUnwind]; try (split <;> simp))
+
+theorem lstep_cache_frame {idx arr cache c ev a' ch' c'} (h : LStep idx arr cache c ev a' ch' c') (k : Nat)
+    (h1 : ∀ v, ev ≠ .cpop k v) (h2 : ∀ b, ev ≠ .crmv k b) : ch' k = cache k := by
+  cases h
+  all_goals (try rfl)
+  all_goals (simp at h1 h2; simp [upd]; intro hk; first | exact absurd hk.symm h1 | exact absurd hk.symm h2)
+
+theorem step_lstep {idx : Nat → Nat} {s s' : St} {i : Nat} {ev : Ev} (hI : Inv idx s) (h : step idx s i = some (ev, s')) :
+    ∃ c a' ch' c', s.cs[i]? = some c ∧ LStep idx s.arr s.cache c ev a' ch' c' ∧
+      s' = { arr := a', cache := ch', cs := s.cs.set i c' } := by
+  obtain ⟨c, a', ch', c', hi, hc, rfl⟩ := step_iff.mp h
+  exact ⟨c, a', ch', c', hi, stepC_sound idx s.arr s.cache c c' ev a' ch' hc (hI.book i c hi) (hI.pc i c hi) (hI.stack i c hi), rfl⟩
+
+theorem getElem?_set_cases {l : List Caller} {i j : Nat} {c' d : Caller} (h : (l.set i c')[j]? = some d) :
+    (j = i ∧ d = c') ∨ (j ≠ i ∧ l[j]? = some d) := by
+  by_cases hij : i = j
+  · subst hij
+    rw [List.getElem?_set_self'] at h
+    cases hl : l[i]? with
+    | none => simp [hl] at h
+    | some x => simp [hl] at h; exact Or.inl ⟨rfl, h.symm⟩
+  · rw [List.getElem?_set_ne hij] at h
+    exact Or.inr ⟨fun e => hij e.symm, h⟩
+
+/-- how `partialWriter` changes along one step -/
+theorem step_partialWriter {idx : Nat → Nat} {s s' : St} {i : Nat} {ev : Ev} (hI : Inv idx s)
+    (h : step idx s i = some (ev, s')) (k : Nat) :
+    (ev = .ccreate k → partialWriter s' k = true) ∧
+    (partialWriter s' k = true → partialWriter s k = true ∨ ev = .ccreate k) ∧
+    (partialWriter s k = true → partialWriter s' k = true ∨ (∃ v, ev = .cpop k v) ∨ ev = .cpopFail k) := by
+  obtain ⟨c, a', ch', c', hi, hL, rfl⟩ := step_lstep hI h
+  have hp := lstep_popW hL
+  have hlen : i < s.cs.length := by
+    cases hq : s.cs[i]? with
+    | none => simp [hq] at hi
+    | some x => exact (List.getElem?_eq_some_iff.mp hq).1
+  refine ⟨?_, ?_, ?_⟩
+  · intro he
+    obtain ⟨g, hg⟩ := hp.2.2 k he
+    exact partialWriter_iff.mpr ⟨i, c', g, by simp [List.getElem?_set_self hlen], hg⟩
+  · intro hw
+    obtain ⟨j, d, g, hj, hd⟩ := partialWriter_iff.mp hw
+    rcases getElem?_set_cases hj with ⟨_, rfl⟩ | ⟨_, hj'⟩
+    · exact Or.inr (hp.1 k g hd)
+    · exact Or.inl (partialWriter_iff.mpr ⟨j, d, g, hj', hd⟩)
+  · intro hw
+    obtain ⟨j, d, g, hj, hd⟩ := partialWriter_iff.mp hw
+    by_cases hji : j = i
+    · subst hji
+      rw [hi] at hj; cases hj
+      exact Or.inr (hp.2.1 k g hd)
+    · left
+      refine partialWriter_iff.mpr ⟨j, d, g, ?_, hd⟩
+      simp [List.getElem?_set_ne (fun e => hji e.symm), hj]
+
+theorem step_cache_frame {idx : Nat → Nat} {s s' : St} {i : Nat} {ev : Ev} (hI : Inv idx s)
+    (h : step idx s i = some (ev, s')) (k : Nat) (h1 : ∀ v, ev ≠ .cpop k v) (h2 : ∀ b, ev ≠ .crmv k b) :
+    s'.cache k = s.cache k := by
+  obtain ⟨c, a', ch', c', hi, hL, rfl⟩ := step_lstep hI h
+  exact lstep_cache_frame hL k h1 h2
+
+theorem ccreate_uncached {idx : Nat → Nat} {s s' : St} {i : Nat} {k : Nat} (hI : Inv idx s)
+    (h : step idx s i = some (.ccreate k, s')) : s.cache k = none := by
+  obtain ⟨c, a', ch', c', hi, hL, rfl⟩ := step_lstep hI h
+  have := hI.pc i c hi
+  cases hL
+  simpa [pcOK] using this
+
+theorem dreachable_base {enc : Nat → List Nat} {idx : Nat → Nat} {progs : List (List (List Instr))} {s : DSt}
+    (h : DReachable enc idx progs s) : Reachable idx progs s.base := by
+  induction h with
+  | init => exact Reachable.init
+  | step hr hs ih =>
+    rename_i s s' i a ev
+    cases a with
+    | base =>
+      simp only [dstep] at hs
+      cases hb : step idx s.base i with
+      | none => simp [hb] at hs
+      | some r =>
+        obtain ⟨e, b'⟩ := r
+        simp only [hb] at hs
+        split at hs
+        · simp at hs; obtain ⟨_, rfl⟩ := hs; exact Reachable.step ih hb
+        · simp at hs
+    | chunk b =>
+      simp only [dstep] at hs
+      split at hs
+      · simp at hs
+      · split at hs
+        · split at hs
+          · split at hs
+            · simp at hs; obtain ⟨_, rfl⟩ := hs; exact ih
+            · simp at hs
+          · simp at hs
+        · simp at hs
+    | close =>
+      simp only [dstep] at hs
+      split at hs
+      · simp at hs
+      · split at hs
+        · split at hs
+          · split at hs
+            · simp at hs; obtain ⟨_, rfl⟩ := hs; exact ih
+            · simp at hs
+          · simp at hs
+        · simp at hs
+
+/-- a chunk / close step: the stepping caller is the writer of `k`, only the file of `k` changes -/
+theorem dstep_write_facts {enc : Nat → List Nat} {idx : Nat → Nat} {s s' : DSt} {i : Nat} {a : DAct} {ev : DEv}
+    (ha : a ≠ .base) (hs : dstep enc idx s i a = some (ev, s')) :
+    ∃ c k g w f', s.base.cs[i]? = some c ∧ c.pc = .gsPopW k g ∧ s.file k = .opened w ∧
+      s' = { base := s.base, file := upd s.file k f' } ∧
+      ((∃ b, a = .chunk b ∧ ev = .chunk k b ∧ chunkOk enc g w b = true ∧ f' = .opened (w ++ [b])) ∨
+       (a = .close ∧ ev = .close k ∧ closeOk enc g w = true ∧ f' = .closed w)) := by
+  cases a with
+  | base => exact absurd rfl ha
+  | chunk b =>
+    simp only [dstep] at hs
+    cases hc : s.base.cs[i]? with
+    | none => simp [hc] at hs
+    | some c =>
+      simp only [hc] at hs
+      cases hpc : c.pc <;> simp [hpc] at hs
+      rename_i k g
+      cases hf : s.file k <;> simp [hf] at hs
+      rename_i w
+      obtain ⟨hok, rfl, rfl⟩ := hs
+      exact ⟨c, k, g, w, _, rfl, hpc, hf, rfl, Or.inl ⟨b, rfl, rfl, hok, rfl⟩⟩
+  | close =>
+    simp only [dstep] at hs
+    cases hc : s.base.cs[i]? with
+    | none => simp [hc] at hs
+    | some c =>
+      simp only [hc] at hs
+      cases hpc : c.pc <;> simp [hpc] at hs
+      rename_i k g
+      cases hf : s.file k <;> simp [hf] at hs
+      rename_i w
+      obtain ⟨hok, rfl, rfl⟩ := hs
+      exact ⟨c, k, g, w, _, rfl, hpc, hf, rfl, Or.inr ⟨rfl, rfl, hok, rfl⟩⟩
+
+theorem dstep_base_facts {enc : Nat → List Nat} {idx : Nat → Nat} {s s' : DSt} {i : Nat} {ev : DEv}
+    (hs : dstep enc idx s i .base = some (ev, s')) :
+    ∃ e b', step idx s.base i = some (e, b') ∧ baseOk enc s.file e = true ∧ ev = .base e (obsOf s.file e) ∧
+      s' = { base := b', file := fileAfter s.file e } := by
+  simp only [dstep] at hs
+  cases hb : step idx s.base i with
+  | none => simp [hb] at hs
+  | some r =>
+    obtain ⟨e, b'⟩ := r
+    simp only [hb] at hs
+    split at hs
+    · rename_i hok
+      simp at hs; obtain ⟨rfl, rfl⟩ := hs
+      exact ⟨e, b', rfl, hok, rfl, rfl⟩
+    · simp at hs
+
+theorem dinv_step {enc : Nat → List Nat} {idx : Nat → Nat} {s s' : DSt} {i : Nat} {a : DAct} {ev : DEv}
+    (hI : Inv idx s.base) (hD : DInv enc s) (hs : dstep enc idx s i a = some (ev, s')) : DInv enc s' := by
+  by_cases ha : a = .base
+  · subst ha
+    obtain ⟨e, b', hb, hok, rfl, rfl⟩ := dstep_base_facts hs
+    obtain ⟨c, hi, _, _, f3, f4, f5⟩ := step_facts hI hb
+    intro k
+    have hpw := step_partialWriter hI hb k
+    have hD' := hD k
+    -- which event, relative to key k
+    by_cases e1 : ∃ v, e = .cpop k v
+    · obtain ⟨v, rfl⟩ := e1
+      have := f3 k v rfl
+      simp [baseOk] at hok
+      simp [this.2.2, upd, fileAfter, hok]
+    by_cases e2 : ∃ b, e = .crmv k b
+    · obtain ⟨b, rfl⟩ := e2
+      have := f5 k b rfl
+      simp [this.2.2, upd, fileAfter]
+    by_cases e3 : e = .cpopFail k
+    · subst e3
+      have := f4 k rfl
+      simp [this.2.2, this.2.1, fileAfter, upd]
+    by_cases e4 : e = .ccreate k
+    · subst e4
+      have hc := ccreate_uncached hI hb
+      have hcf := step_cache_frame hI hb k (by simp) (by simp)
+      simp [hcf, hc, hpw.1 rfl]
+    -- no event on key k: cache k and file k unchanged
+    have hcf := step_cache_frame hI hb k (fun v h => e1 ⟨v, h⟩) (fun b h => e2 ⟨b, h⟩)
+    have hff : fileAfter s.file e k = s.file k := by
+      cases e <;> simp [fileAfter, upd] <;> (intro hk; subst hk; simp at e1 e2 e3 e4)
+    simp only [hcf, hff]
+    refine ⟨hD'.1, fun hn hp' => hD'.2 hn ?_⟩
+    cases hp : partialWriter s.base k with
+    | false => rfl
+    | true =>
+      rcases hpw.2.2 hp with h | ⟨v, h⟩ | h
+      · rw [h] at hp'; cases hp'
+      · exact absurd ⟨v, h⟩ e1
+      · exact absurd h e3
+  · obtain ⟨c, k, g, w, f', hi, hpc, hf, rfl, _⟩ := dstep_write_facts ha hs
+    have hck : s.base.cache k = none := by
+      have := hI.pc i c hi
+      simpa [pcOK, hpc] using this
+    have hpwk : partialWriter s.base k = true := partialWriter_iff.mpr ⟨i, c, g, hi, hpc⟩
+    intro k'
+    by_cases hk : k' = k
+    · subst hk; simp [hck, hpwk]
+    · simpa [upd, hk] using hD k'
+
+theorem dinv_reachable {enc : Nat → List Nat} {idx : Nat → Nat} {progs : List (List (List Instr))} {s : DSt}
+    (h : DReachable enc idx progs s) : DInv enc s := by
+  induction h with
+  | init => intro k; simp [dinit, init]
+  | step hr hs ih => exact dinv_step (inv_reachable (dreachable_base hr)) ih hs
+
+theorem chunked_no_partial_read' {enc : Nat → List Nat} {idx : Nat → Nat} {progs : List (List (List Instr))}
+    {s s' : DSt} {j : Nat} {ev : Ev} {obs : Option DiskRead} {k v : Nat}
+    (h : DReachable enc idx progs s) (hs : dstep enc idx s j .base = some (.base ev obs, s'))
+    (hev : ev = .cget k v ∨ ev = .enter k v) :
+    s.file k = .closed (enc v) ∧ partialWriter s.base k = false ∧ (ev = .cget k v → obs = some (.complete (enc v))) := by
+  obtain ⟨e, b', hb, _, he, _⟩ := dstep_base_facts hs
+  simp at he
+  obtain ⟨rfl, rfl⟩ := he
+  have hx := no_partial_exposed' (dreachable_base h) hb hev
+  have hf := ((dinv_reachable h) k).1 v hx.2
+  refine ⟨hf, hx.1, ?_⟩
+  rintro rfl
+  simp [obsOf, hf, diskRead]
+
+/-- between the writer's steps nobody else touches the file: a chunk / close step is taken by the one writer
+of the entry, while the entry is not cached and no other caller holds it open or writes / removes its slot -/
+theorem chunk_steps_exclusive' {enc : Nat → List Nat} {idx : Nat → Nat} {progs : List (List (List Instr))}
+    {s s' : DSt} {i : Nat} {a : DAct} {ev : DEv} (h : DReachable enc idx progs s) (ha : a ≠ .base)
+    (hs : dstep enc idx s i a = some (ev, s')) :
+    ∃ k, (ev = .close k ∨ ∃ b, ev = .chunk k b) ∧ s'.base = s.base ∧ (∀ k', k' ≠ k → s'.file k' = s.file k') ∧
+      s.base.cache k = none ∧
+      ∀ j d, s.base.cs[j]? = some d → j ≠ i → k ∉ d.reads ∧ d.pc.writeKey ≠ some k := by
+  obtain ⟨c, k, g, w, f', hi, hpc, hf, rfl, hcase⟩ := dstep_write_facts ha hs
+  refine ⟨k, ?_, rfl, fun k' hk => by simp [upd, hk], ?_, ?_⟩
+  · rcases hcase with ⟨b, _, rfl, _, _⟩ | ⟨_, rfl, _, _⟩
+    · exact Or.inr ⟨b, rfl⟩
+    · exact Or.inl rfl
+  · have := (inv_reachable (dreachable_base h)).pc i c hi
+    simpa [pcOK, hpc] using this
+  · intro j d hj hne
+    have := disk_no_partial_read' (dreachable_base h) hi hpc hj hne
+    exact ⟨this.2.1, this.2.2.1⟩
+
+
+
+def chunkProgs : List (List (List Instr)) := [[[.getSet 0 (.ok 7)]], [[.getSet 0 (.ok 9)]]]
+def chunkEnc : Nat → List Nat := fun v => if v = 7 then [1, 2] else []
+/-- writer reaches `gsPopW` (file created, zero-length); the reader starts and is refused the read lock -/
+def chunkSched1 : List (Nat × DAct) := List.replicate 8 (0, DAct.base) ++ List.replicate 3 (1, DAct.base)
+/-- … the writer writes chunk 1, the reader tries again, chunk 2, close, return, switch; then the reader gets in -/
+def chunkSched2 : List (Nat × DAct) :=
+  chunkSched1 ++ [(0, .chunk 1), (1, .base), (0, .chunk 2), (1, .base), (0, .close), (1, .base), (0, .base), (0, .base)] ++ List.replicate 3 (1, DAct.base)
+
+theorem chunked_write_example' :
+    (drun chunkEnc id (dinit chunkProgs) chunkSched1).1.file 0 = .opened [] ∧
+    diskRead ((drun chunkEnc id (dinit chunkProgs) chunkSched1).1.file 0) = .zeroLength ∧
+    (drun chunkEnc id (dinit chunkProgs) chunkSched1).2.getLast? = some (1, .base .spin none) ∧
+    ((drun chunkEnc id (dinit chunkProgs) chunkSched2).2.filter (fun e => e.1 == 1)).map (·.2) =
+      [.base .nextSeg none, .base .begin none, .base .spin none, .base .spin none, .base .spin none, .base .spin none,
+       .base (.acqR 0) none, .base (.contains 0 true) none, .base (.cget 0 7) (some (.complete [1, 2]))] ∧
+    -- a chunk that is not the next one of the value, or closing early, is not a step of a successful writer
+    (dstep chunkEnc id (drun chunkEnc id (dinit chunkProgs) chunkSched1).1 0 (.chunk 2)).isNone = true ∧
+    (dstep chunkEnc id (drun chunkEnc id (dinit chunkProgs) chunkSched1).1 0 .close).isNone = true ∧
+    -- `get_set` cannot return before the file is closed
+    (dstep chunkEnc id (drun chunkEnc id (dinit chunkProgs) chunkSched1).1 0 .base).isNone = true := by
+  decide
+
+def semProgs : List (List SRead) := [[⟨false, false, false⟩, ⟨true, false, false⟩], [⟨false, true, false⟩], [⟨false, false, true⟩]]
+
+theorem semaphore_example' :
+    (srun (sinit 1 semProgs) [0, 1, 2, 0, 1, 2, 0, 0, 0, 1, 1, 1, 2, 2, 2, 2, 0, 0, 0, 0]).1.free = 1 ∧
+    (srun (sinit 1 semProgs) [0, 1, 2, 0, 1, 2, 0, 0, 0, 1, 1, 1, 2, 2, 2, 2, 0, 0, 0, 0]).1.allTerminal = true ∧
+    (srun (sinit 1 semProgs) [0, 1, 2, 0, 1, 2]).2 = [(0, .request), (1, .request), (2, .request), (0, .acquire), (1, .wait), (2, .wait)] ∧
+    (srun (sinit 1 semProgs) [0, 1, 2, 0, 1, 2]).1.holders = 1 := by decide
+
+/-- with no permit at all every reader waits forever: `1 ≤ permits` is necessary -/
+theorem semaphore_zero_permits_counterexample' :
+    (srun (sinit 0 [[⟨false, false, false⟩]]) [0, 0, 0]).2 = [(0, .request), (0, .wait), (0, .wait)] ∧
+    (srun (sinit 0 [[⟨false, false, false⟩]]) [0, 0, 0]).1.allTerminal = false := by decide
+
+
+
+/-! ### translator obligations: constants extracted from the current source = the model's -/
+theorem generated_consts_match' :
+    Generated.openmlPermits = modelPermits ∧ Generated.digestBytes = modelDigestBytes ∧ Generated.lockTableSize = modelSlots ∧
+    256 ^ Generated.digestBytes ≤ Generated.lockTableSize ∧ 1 ≤ Generated.openmlPermits := by decide
+
 end Coba.C19
